@@ -676,6 +676,26 @@ def lemma_L3(prog, res):
             res.add("C08.open_clears_its_cache", "holds" if (m.cleared and not m.over) else "violated")
         # laziness: reads during open are header, tail, shdr[0], the two tables -- nothing else
         reads = [ev for ev in p["events"] if ev[0] == "read_exact"]
+        ehdr_ = v.f[0].f[0] if is_ok(v) else env.get("last_ehdr")
+        if ehdr_ is not None and reads:
+            is32_ = ehdr_.f[0].variant == "ELF32"
+            ci_ = 0 if is32_ else 1
+            shes_, phes_ = (40, 32) if is32_ else (64, 56)
+            o_ph, o_sh = ehdr_.f[8].e, ehdr_.f[9].e
+            n_ph16, n_sh16 = ehdr_.f[13].e, ehdr_.f[15].e
+            sh0_size_ = model.field_term("SectionHeader", 5, ci_, o_sh, 64)
+            sh0_info_ = model.field_term("SectionHeader", 7, ci_, o_sh, 32)
+            n_sh = z3.If(n_sh16 == 0, sh0_size_, z3.ZeroExt(48, n_sh16))
+            n_ph = z3.If(n_ph16 == 0xffff, z3.ZeroExt(32, sh0_info_), z3.ZeroExt(48, n_ph16))
+            for ev in reads:
+                pos_, len_ = ev[2], ev[3]
+                allowed = z3.Or(z3.And(z3.ULE(pos_, bv(64)), z3.ULE(len_, bv(64) - pos_)),           # the file header
+                                z3.And(pos_ == o_sh, len_ == shes_),                                 # section header 0 (extended numbering)
+                                z3.And(pos_ == o_sh, len_ == n_sh * bv(shes_)),                      # the section header table
+                                z3.And(pos_ == o_ph, len_ == n_ph * bv(phes_)))                      # the program header table
+                okv, mdl = valid(res, sol, p["pc"], allowed)
+                res.add("C08.open_reads_only_header_and_tables", "holds" if okv else "violated",
+                        "" if okv else f"open reads (pos={z3.simplify(pos_)}, len={z3.simplify(len_)}), which is neither the file header, section header 0 nor a header table: {model_str(mdl, 16)}"[:800], mdl)
         res.add("C08.open_reads_at_most_5_ranges", "holds" if len(reads) <= 6 else "violated", f"{len(reads)} reads")
     res.add("C08.no_panic(open_stream)", "holds" if not any(o["name"] == "C08.no_panic(open_stream)" and o["status"] == "violated" for o in res.obligations) else "violated",
             f"{len(sp) + len(fp)} paths")
